@@ -147,6 +147,10 @@ namespace {
 	void pcap::log_tcp(packet const& p, tcp::endpoint const src
 		, tcp::endpoint const dst)
 	{
+		// the capture is made of IPv4 packets. Traffic between IPv6 addresses is
+		// not recorded
+		if (!src.address().is_v4() || !dst.address().is_v4()) return;
+
 		// synthesize IP/TCP header and write packet
 		auto const now = chrono::high_resolution_clock::now();
 
@@ -176,6 +180,10 @@ namespace {
 	void pcap::log_udp(packet const& p, udp::endpoint const src
 		, udp::endpoint const dst)
 	{
+		// the capture is made of IPv4 packets. Traffic between IPv6 addresses is
+		// not recorded
+		if (!src.address().is_v4() || !dst.address().is_v4()) return;
+
 		// synthesize IP/UDP header and write packet
 		auto const now = chrono::high_resolution_clock::now();
 
